@@ -9,9 +9,16 @@ variable {τ σ : Type} [Num τ]
 
 theorem evaluate_eq (all : Bool) (n c : Nat) : evaluate all n c = Gen.Condition.evaluate all (n : Int) (c : Int) := by
   unfold evaluate Gen.Condition.evaluate Gen.Condition.all_events Gen.Condition.any_events
+  -- through `omega`, so that the orientation of `==` and the order of the disjuncts in the source do not matter
   cases all
-  · simp [Bool.beq_eq_decide_eq]
-  · simp only [if_true, Bool.beq_eq_decide_eq, Int.natCast_inj]
+  · simp only [Bool.false_eq_true, if_false]
+    rw [Bool.eq_iff_iff]
+    simp only [Bool.or_eq_true, decide_eq_true_eq, beq_iff_eq]
+    omega
+  · simp only [if_true]
+    rw [Bool.eq_iff_iff]
+    simp only [decide_eq_true_eq, beq_iff_eq]
+    omega
 
 omit [Num τ] in
 theorem evOk_false (s : KState τ σ) (e : EvId) (x : Exc) (h : (s.ev e).out = some (.fail x)) : evOk s e = false := by
